@@ -10,8 +10,8 @@
    Model/C18_machine.v is the extension as a state machine over on_package_loaded events; Model/C18_presented.v is
    Class.parameters. *)
 From Coq Require Import List Arith Bool String.
-From Verif Require Import Lib.Sexp Model.C18_dataclass Model.C18_modes Model.C18_machine Model.C18_presented Gen.C18_flags
-  Proofs.C18_dataclass Proofs.C18_modes Proofs.C18_machine Proofs.C18_presented Proofs.C18_top Proofs.C18_order.
+From Verif Require Import Lib.Sexp Model.C18_dataclass Model.C18_modes Model.C18_machine Model.C18_presented Model.C18_layout Gen.C18_flags
+  Proofs.C18_dataclass Proofs.C18_modes Proofs.C18_machine Proofs.C18_presented Proofs.C18_top Proofs.C18_order Proofs.C18_layout.
 Import ListNotations.
 Open Scope list_scope. Open Scope nat_scope.
 
@@ -216,6 +216,48 @@ Theorem C18_session_needs_a_fresh_seen_set : forall m,
   s_member (session_gen m false true two_versions [7; 7] [[0]; [1]]) 1 (cls_at two_versions 1) = Absent.
 Proof. exact processed_must_be_per_event. Qed.
 Print Assumptions C18_session_needs_a_fresh_seen_set.
+
+(* ===============================================================================================================
+   WHAT THE EXTENSION CAN SEE WHEN THE EVENT FIRES (Model/C18_layout.v): module scopes after the visit and after
+   expand_wildcards.  For ALL layouts (any modules, statements, star graph - cyclic or not - and any fuel):
+   expand_wildcards never changes the member bound to a name when every star import of the module sits on an earlier
+   line than that binding, or targets a module whose __all__ hides the name, or a module that is not loaded ... *)
+Theorem C18_expand_wildcards_keeps : forall L fuel m md n old,
+  nth_error L m = Some md -> lookup_e n (fst (visit md)) = Some old ->
+  (forall line m', In (line, m') (snd (visit md)) ->
+     line <= e_line old \/ match nth_error L m' with Some md' => hidden md' n = true | None => True end) ->
+  lookup_e n (expand fuel L m) = Some old.
+Proof. exact expand_keeps. Qed.
+Print Assumptions C18_expand_wildcards_keeps.
+(* ... so `from dataclasses import dataclass, ...` placed after the star imports, or star imports of modules with an
+   __all__, keep @dataclass recognised (the complement is finding C18-F10) ... *)
+Theorem C18_decorator_recognised : forall L m md old,
+  nth_error L m = Some md -> lookup_e helper (fst (visit md)) = Some old -> e_bind old = BStd ->
+  (forall line m', In (line, m') (snd (visit md)) ->
+     line <= e_line old \/ match nth_error L m' with Some md' => hidden md' helper = true | None => True end) ->
+  recognised true L m = true.
+Proof. exact recognised_sufficient. Qed.
+Print Assumptions C18_decorator_recognised.
+(* ... and a class whose decorator is recognised and whose bases resolve is read as it is written. *)
+Theorem C18_seen_as_written : forall ex L m c bases, seen_ok ex L m c bases = true -> mask_cls ex L m c = c.
+Proof. exact mask_id. Qed.
+Print Assumptions C18_seen_as_written.
+(* the generated two-module layouts, computed: F10 (star import after the stdlib imports, sibling without __all__) loses
+   the decorator; star first / __all__ / explicit import / re-export through the package keep it; all bases resolve *)
+Theorem C18_layouts_computed :
+  recognised true L_shadow 2 = false /\ base_resolves true L_shadow 2 0 = true /\
+  recognised true L_wild 2 = true /\ base_resolves true L_wild 2 0 = true /\
+  recognised true L_all 2 = true /\ base_resolves true L_all 2 0 = true /\
+  recognised true L_from 2 = true /\ base_resolves true L_from 2 0 = true /\
+  recognised true L_reexport 2 = true /\ base_resolves true L_reexport 2 0 = true.
+Proof. exact layouts_computed. Qed.
+Print Assumptions C18_layouts_computed.
+(* were on_package_loaded fired before expand_wildcards, bases arriving by star import would not resolve *)
+Theorem C18_event_must_follow_wildcards :
+  base_resolves false L_wild 2 0 = false /\ base_resolves false L_all 2 0 = false /\ base_resolves false L_reexport 2 0 = false /\
+  base_resolves false L_from 2 0 = true /\ recognised false L_shadow 2 = true.
+Proof. exact event_before_wildcards. Qed.
+Print Assumptions C18_event_must_follow_wildcards.
 
 (* ===============================================================================================================
    THE TRANSLATED RULES (Gen/C18_flags.v, regenerated from extensions/dataclasses.py on every run) ARE THE MODEL'S:
